@@ -43,7 +43,7 @@ META = dict(
          "and the strings are counted as unspecified. Strings longer than the bound and items outside ITEMS are not explored.",
 )
 
-ITEMS = ["A", "B", "A B", "a.b", "c|d", "(e)", "x+y", "kg", "L/h", "%"]
+ITEMS = ["A", "B", "A B", "a.b", "c|d", "(e)", "x+y", "kg", "L/h", "%", "m\\"]      # the last one ends in a backslash
 FIXED_TOKENS = ["+", " ", "", "-", "1", "23", ".", "e"]
 
 ACCEPT, UNSPEC, REJECT = "accept", "unspecified", "reject"
